@@ -2,7 +2,7 @@
 #![allow(unused_imports, dead_code)]
 use super::*;
 use crate::error::CIError;
-use crate::stats::verif_kani::{any_confidence, stub_z_value};
+use crate::stats::verif_kani::{any_confidence, stub_z_value, det_z_value};
 
 fn ok_unit_interval(i: &Interval<f64>) -> bool {
     matches!(i, Interval::TwoSided(l, h) if !l.is_nan() && !h.is_nan() && l <= h && *l >= 0.0 && *h <= 1.0)
@@ -146,6 +146,15 @@ fn c02_counting_front_ends_bounded() {
     assert!(a == want);
     let b: Stats = v.iter().copied().collect();
     assert!(b == want);
+    // an iterator whose size_hint is NOT exact (a filter keeps everything but reports (0, Some(len))), and one that ends early
+    let b2: Stats = v.iter().copied().filter(|_| true).collect();
+    assert!(b2 == want, "from_iter must count the items the iterator yields, not what it hints");
+    let keep: [bool; 4] = kani::any();
+    let mut want3 = Stats::default();
+    let mut j = 0;
+    while j < len { if keep[j] { if data[j] { want3.add_success() } else { want3.add_failure() } }; j += 1; }
+    let b3: Stats = (0..len).filter(|&j| keep[j]).map(|j| data[j]).collect();
+    assert!(b3 == want3, "from_iter over a filtered iterator");
     let mut d = Stats::default();
     d.extend_if(&v, |x| *x);
     assert!(d == want);
@@ -209,4 +218,29 @@ fn c11_ci_z_normal_total() {
         Err(CIError::IntervalError(_)) => { kani::cover!(true, "bounds not ordered (level below 1/2 or bound beyond the natural end)"); }
         Err(_) => assert!(false, "undocumented error variant"),
     }
+}
+
+// ---- frame conditions (C02 / C10 / C17: an interval producer is a function of its arguments).  The contract spliced onto the
+// real function by kani/contracts.json has no `modifies` clause, so Kani's contract instrumentation checks every assignment
+// made during the call: anything other than locals and fresh allocations (a static, a thread-local, a memo table) fails
+// "Check that ... is assignable".  z_value is stubbed: statrs' lazily initialised distribution object is outside the claim.
+#[kani::proof_for_contract(ci_wilson)]
+#[kani::stub(crate::stats::z_value, det_z_value)]
+fn c02_frame_ci_wilson_writes_no_hidden_state() {
+    let c = any_confidence();
+    let n: usize = kani::any();
+    let k: usize = kani::any();
+    let r = ci_wilson(c, n, k);
+    kani::cover!(r.is_ok());
+    kani::cover!(r.is_err());
+}
+#[kani::proof_for_contract(ci_z_normal)]
+#[kani::stub(crate::stats::z_value, det_z_value)]
+fn c02_frame_ci_z_normal_writes_no_hidden_state() {
+    let c = any_confidence();
+    let n: usize = kani::any();
+    let k: usize = kani::any();
+    let r = ci_z_normal(c, n, k);
+    kani::cover!(r.is_ok());
+    kani::cover!(r.is_err());
 }
